@@ -695,16 +695,59 @@ theorem legacy_shake_loses_process_entry :
     ((treeShake exF13 0).map (fun o => (o.prog.types.size, o.prog.tagPresent (.proc 1)))) = some (3, true) := by
   decide
 
-/-- `merge_isRenaming`, as a statement: merging `src` into any environment program `env` gives a program
-    that is a structural renaming of `src` by the remap tables of the merge (deduplication and shifting
-    never conflate two different source entries). NOT proved — the port `mergeBytecode`
-    (Core/Packaging/Merge.lean) is tied to environment.rs by exact equality of the environment's program
-    after every merge the harness performs, and every instance is validated with the port's own tables
-    (`merge:model-equals-merge_bytecode`); a proof needs the injectivity argument for `register_*` on a
-    deduplicated source (two distinct deduplicated source entries stay distinct after a consistent,
-    injective remap of their children) by induction over the import order. -/
+/-- What a source program must satisfy for `merge_bytecode` to be a renaming at all (all three hold for
+    bytecode built through `Program::register_*` by the compiler; none is checked by the Rust):
+    * `backward`: a function refers only to functions with a SMALLER index — `remap_function` is applied
+      while the function table is still being merged and falls back to the source index
+      (`.unwrap_or(idx)`) for a function that has not been merged yet;
+    * `noProcessLiteral`: `Instruction::Process(pid, f)` is not remapped at all (its `f` is already an
+      environment index: REPL-only);
+    * `dedup`: the source tables are duplicate-free (otherwise two source ids are merged into one and the
+      remap tables are not injective). -/
+structure MergeableSource (src : Prog) : Prop where
+  backward : ∀ (i : Nat) (F : Fn), src.fns[i]? = some F → ∀ g, Instr.function g ∈ F.instrs → g < i
+  noProcessLiteral : ∀ (i : Nat) (F : Fn), src.fns[i]? = some F → ∀ pid g, Instr.process pid g ∉ F.instrs
+  dedup : src.consts.toList.Nodup ∧ src.fns.toList.Nodup ∧ src.types.toList.Nodup ∧ src.tuples.toList.Nodup ∧
+    (src.builtins.toList.map (·.name)).Nodup
+
+/-- `merge_isRenaming`, as a statement: merging a mergeable `src` into any environment program `env`
+    gives a program that is a structural renaming of `src` by the remap tables of the merge
+    (deduplication and shifting never conflate two different source entries). NOT proved — the port
+    `mergeBytecode` (Core/Packaging/Merge.lean) is tied to environment.rs by exact equality of the
+    environment's program after every merge the harness performs, and every instance is validated with
+    the port's own tables (`merge:model-equals-merge_bytecode`). Missing: (a) the memo-consistency
+    invariant of the deep import (`import_type` / `import_tuple`: every memoised id's entry in the target is
+    the image of the source entry under the FINAL maps — by induction over the import order, as
+    `collectType_spec` does for the sweep); (b) injectivity from `dedup` (two distinct duplicate-free
+    source entries stay distinct under an injective remap of their children, so `register_*` cannot map
+    them to one target entry). Proved below: the seeded fast path breaks it
+    (`merge_fast_path_breaks_renaming`). -/
 def MergeIsRenamingStatement : Prop :=
-  ∀ (env src : Prog) (e : Nat) (out : MergeOut), mergeBytecode env src e = some out →
+  ∀ (env src : Prog) (e : Nat) (out : MergeOut), MergeableSource src → mergeBytecode env src e = some out →
     IsStructRenaming out.ren src out.prog e out.entry
+
+/-- two independently compiled programs whose type 1 is *structurally* the same entry `Union[0]` —
+    but type 0 is `'int` in the environment and `'bin` in the incoming program -/
+def exEnv : Prog :=
+  { consts := #[], fns := #[], builtins := #[], tuples := #[⟨none, []⟩, ⟨some "Ok", []⟩],
+    types := #[.int, .union [0]], resources := #[], compat := [], canon := #[] }
+
+def exSrc : Prog :=
+  { consts := #[], fns := #[{ instrs := [.isType 1], captures := 0, typeId := 1 }], builtins := #[],
+    tuples := #[⟨none, []⟩, ⟨some "Ok", []⟩],
+    types := #[.bin, .union [0]], resources := #[], compat := [], canon := #[] }
+
+/-- **Witness for seeded C08-3** (`import_type` fast path: "a structurally equal entry at the same index
+    maps to itself"): with the fast path the incoming program's `Union['bin]` (type 1) is identified
+    with the environment's `Union['int]` — the `types` clause of the renaming fails for it — while the
+    real deep import registers a new entry `Union[2]` behind a new `'bin` at 2 and validates. -/
+theorem merge_fast_path_breaks_renaming :
+    ((mergeBytecodeWith true exEnv exSrc 0).map (fun o =>
+        (o.ren.type.get 1, o.prog.types.toList, o.ren.type.all (typeOK o.ren exSrc o.prog)))) =
+      some (some 1, [.int, .union [0], .bin], false) ∧
+    ((mergeBytecode exEnv exSrc 0).map (fun o =>
+        (o.ren.type.get 1, o.prog.types.toList, o.ren.type.all (typeOK o.ren exSrc o.prog)))) =
+      some (some 3, [.int, .union [0], .bin, .union [2]], true) := by
+  decide
 
 end C10
